@@ -216,7 +216,12 @@ class PropertyRun:
     known_obligations = 0
     seen_classes = set()
     nrep = 0
+    confirmed = {}
     for c in cands:
+      if confirmed.get(c.obligation, 0) >= 3:
+        # three reproduced, unlisted violations of this obligation already:
+        # the verdict cannot change, further replays only cost time
+        continue
       try:
         ok, wclass, what = mod.replay(dataclasses.asdict(c))
       except BaseException as e:  # pylint: disable=broad-except
@@ -238,6 +243,7 @@ class PropertyRun:
           known_hits.append((k, what))
         seen_classes.add(key)
         continue
+      confirmed[c.obligation] = confirmed.get(c.obligation, 0) + 1
       if key in seen_classes:
         continue
       seen_classes.add(key)
